@@ -1,8 +1,104 @@
-(* Property C18 — distance-vector routing converges to shortest paths (placeholder; theorems are added as proved). *)
-From Dv Require Import Model Spec.
+(* Property C18 — distance-vector routing converges to shortest paths on every topology and fair schedule.
+   Only theorem statements closed by `exact`, each followed by Print Assumptions, and a non-vacuity Example.
+
+   Vocabulary (Model.v / Spec.v):
+     run S evs            the network state after the events evs (Fetch i j = router i processes router j's
+                          current advertisement with the modelled ribUpdate; NbrUp / NbrDead = neighbour entry
+                          created / declared dead; RouterUp / RouterDown)
+     topo_of S            the directed graph "j is in i's neighbour table" over the live routers
+     settled g            every neighbour-table entry names a live router (all losses have been detected)
+     nrounds g n evs      evs = n rounds followed by arbitrary further fetches; a round (is_round g) is any
+                          sequence of Fetch events in which every ordered adjacent pair occurs at least once
+     isdist g i d m       the hop distance from i to d in g is m;   maxdist g = the largest distance below INF
+     converged S          for every router: its table (Rib.Entries: destination -> best cost, next hop) lists
+                          exactly the destinations at distance m < INF, each with cost m and, as next hop, the
+                          neighbour with the least name hash among those one hop closer (itself for itself);
+                          and its advertisement lists no cost >= INF
+     net_ok S             well-formed state: per-entry cached best/second-best consistent with the per-hop
+                          costs, every usable cost goes through a current neighbour (or is the router's own
+                          entry), no entry without a usable cost — what every history leaves behind *)
+From Coq Require Import Permutation.
+From Dv Require Import Model Spec Refresh RibFacts Net Graph Conv Final.
 Open Scope N_scope.
 
-(* the infinity metric the statement talks about *)
+(* the infinity metric and link cost the statement talks about, as translated from the source on this run *)
 Theorem infinity_is_16 : INF = 16 /\ local_cost = 1.
 Proof. exact (conj eq_refl eq_refl). Qed.
 Print Assumptions infinity_is_16.
+
+(* "ties are broken the same way every time": RibEntry.refresh yields the two least (cost, next-hop hash)
+   pairs among the costs below infinity, for every iteration order of the Go map *)
+Theorem refresh_order_independent : forall cs cs' : list (node * N),
+  NoDup (map fst cs) -> Permutation cs cs' ->
+  refresh_fold cs = refresh_fold cs' /\ two_least cs (refresh_fold cs).
+Proof. exact (fun cs cs' Hnd P => conj (refresh_fold_order_independent cs cs' Hnd P) (refresh_fold_spec cs Hnd)). Qed.
+Print Assumptions refresh_order_independent.
+
+(* every history (any schedule, any sequence of losses and re-additions) leaves a well-formed state *)
+Theorem reachable_well_formed : forall hist, net_ok (run [] hist).
+Proof. exact (fun hist => run_ok hist [] net_ok_nil). Qed.
+Print Assumptions reachable_well_formed.
+
+(* no advertisement ever lists a destination whose best cost is at or above infinity:
+   every reachable state, every schedule, every fault sequence *)
+Theorem advert_below_infinity : forall hist i ro,
+  getr (run [] hist) i = Some ro -> adv_ok (advert (rrib ro)) = true.
+Proof. exact (fun hist i ro => advert_below_infinity_gen [] hist i ro net_ok_nil). Qed.
+Print Assumptions advert_below_infinity.
+
+(* after n rounds from ANY well-formed state, every best-cost estimate is at least min(distance, n, INF);
+   estimates for unreachable (or phantom) destinations are at least min(n, INF) *)
+Theorem dv_lower_bound : forall S n evs i ri d,
+  net_ok S -> settled (topo_of S) = true -> nrounds (topo_of S) n evs ->
+  getr (run S evs) i = Some ri ->
+  (forall m, isdist (topo_of S) i d m -> N.min (N.min m (N.of_nat n)) INF <= b1 (rrib ri) d) /\
+  ((forall m, ~ isdist (topo_of S) i d m) -> N.min (N.of_nat n) INF <= b1 (rrib ri) d).
+Proof. exact lower_bound. Qed.
+Print Assumptions dv_lower_bound.
+
+(* clean start: after any history in which nothing is lost (routers start, neighbours appear, fetches in any
+   order), maxdist rounds of any fair schedule reach the shortest-path tables — any topology, any size *)
+Theorem dv_converges_clean_start : forall hist n evs,
+  let S := run [] hist in
+  forallb is_growth hist = true -> settled (topo_of S) = true ->
+  (maxdist (topo_of S) <= n)%nat -> nrounds (topo_of S) n evs ->
+  converged (run S evs) = true.
+Proof. exact converges_clean_start. Qed.
+Print Assumptions dv_converges_clean_start.
+
+(* self-stabilisation: from ANY well-formed state, INF + maxdist rounds of any fair schedule reach the
+   shortest-path tables of the current topology (cost = hop distance below 16, deterministic next hop on a
+   shortest path, unreachable and phantom destinations withdrawn), and further fetches keep them *)
+Theorem dv_self_stabilises : forall S n evs,
+  net_ok S -> settled (topo_of S) = true ->
+  (N.to_nat INF + maxdist (topo_of S) <= n)%nat -> nrounds (topo_of S) n evs ->
+  converged (run S evs) = true.
+Proof. exact self_stabilises_converged. Qed.
+Print Assumptions dv_self_stabilises.
+
+(* re-convergence after any link or router loss: the same from the state left by any history *)
+Theorem dv_reconverges : forall hist n evs,
+  let S := run [] hist in
+  settled (topo_of S) = true ->
+  (N.to_nat INF + maxdist (topo_of S) <= n)%nat -> nrounds (topo_of S) n evs ->
+  converged (run S evs) = true.
+Proof. exact reconverges_after_any_history. Qed.
+Print Assumptions dv_reconverges.
+
+(* non-vacuity: a triangle 1-2-3 with a fourth router behind 3.  Router 4 disappears and 3 notices: the state is
+   well formed and settled but not converged (1 and 2 still route to 4), three rounds later the routers are
+   counting to infinity, and after INF + maxdist = 17 rounds the tables are the shortest-path tables. *)
+Definition ex_tri : list (node * node) := [(1,2);(2,1);(1,3);(3,1);(2,3);(3,2)].
+Definition ex_round : list event := map (fun p => Fetch (fst p) (snd p)) ex_tri.
+Definition ex_hist : list event :=
+  [RouterUp 1; RouterUp 2; RouterUp 3; RouterUp 4] ++
+  map (fun p => NbrUp (fst p) (snd p)) (ex_tri ++ [(3,4);(4,3)]) ++
+  [Fetch 3 4; Fetch 4 3] ++ ex_round ++ ex_round ++ ex_round ++ [RouterDown 4; NbrDead 3 4].
+
+Example c18_example :
+  let S := run [] ex_hist in
+  settled (topo_of S) = true /\ maxdist (topo_of S) = 1%nat /\ is_round (topo_of S) ex_round = true /\
+  converged S = false /\
+  map (fun r => aget 4 (rib_entries (rrib r))) (run S (concat (repeat ex_round 3))) = [Some (8, 3); Some (6, 1); Some (7, 2)] /\
+  converged (run S (concat (repeat ex_round 17))) = true.
+Proof. vm_compute. repeat split; reflexivity. Qed.
